@@ -64,6 +64,27 @@ proof fn lemma_answer<T: RealNumber, D: Distance<Vec<T>, T>>(g: G<T, D>, algo: &
         assert(algo.point(v[a].0 as int) == g.rows[v[a].0 as int]);
     }
 }
+// the same for every possible answer to the query "row i" (called where the answer is not known yet: at the start of a loop body)
+proof fn lemma_answer_q<T: RealNumber, D: Distance<Vec<T>, T>>(g: G<T, D>, algo: &KNNAlgorithm<T, D>, i: int)
+    requires
+        algo_for(g, algo), 0 <= i < g.n(),
+    ensures
+        forall|v: Seq<(usize, T, &Vec<T>)>| #[trigger] algo.radius_answer(g.rows[i], g.eps, v)
+            ==> enumerates(idxs(v), g.nbp(i), g.n()) && v.len() == g.deg(i) && refs_ok(g, v),
+{
+    assert forall|v: Seq<(usize, T, &Vec<T>)>| #[trigger] algo.radius_answer(g.rows[i], g.eps, v)
+        implies enumerates(idxs(v), g.nbp(i), g.n()) && v.len() == g.deg(i) && refs_ok(g, v) by {
+        lemma_answer(g, algo, i, g.rows[i], v);
+    }
+}
+// pushing an entry on the stack pushes its index on the list of indices
+proof fn lemma_idxs_push_q<T>()
+    ensures forall|v: Seq<(usize, T, &Vec<T>)>, e: (usize, T, &Vec<T>)| #[trigger] idxs(v.push(e)) == idxs(v).push(e.0 as int),
+{
+    assert forall|v: Seq<(usize, T, &Vec<T>)>, e: (usize, T, &Vec<T>)| #[trigger] idxs(v.push(e)) == idxs(v).push(e.0 as int) by {
+        assert(idxs(v.push(e)) =~= idxs(v).push(e.0 as int));
+    }
+}
 // the search structure holds the rows of x and the metric of the problem
 pub open spec fn algo_for<T: RealNumber, D: Distance<Vec<T>, T>>(g: G<T, D>, algo: &KNNAlgorithm<T, D>) -> bool {
     &&& algo.distance == g.d
@@ -115,15 +136,17 @@ impl<T: RealNumber, D: Distance<Vec<T>, T>> DBSCAN<T, D> {
 //@enter
         proof { T::ops_total(); }
         let ghost g = problem(x, parameters);
-//@before let algo = parameters
         let ghost mut seeds: Seq<int> = Seq::<int>::empty();   // seeds[c]: the point cluster c was grown from
         proof {
-            assert(y@.len() == g.n());
-            g.lemma_init(y@);
-            g.lemma_conn_init(y@);
+            assert(g.n() == x.nrows_spec());
+            // the state before the first visit satisfies both invariants; once all points are visited they give the postconditions
+            g.lemma_init_q();
+            g.lemma_conn_init_q();
+            g.lemma_final_q();
         }
 //@loop 1
             invariant
+                g == problem(x, parameters), g.sym(),
                 g.eps == parameters.eps, g.ms == parameters.min_samples as int, g.ms >= 1,
                 n == g.n(), y@.len() == n, n <= i16::MAX,
                 algo_for(g, &algo),
@@ -133,151 +156,114 @@ impl<T: RealNumber, D: Distance<Vec<T>, T>> DBSCAN<T, D> {
                 0 <= k <= VERUS_ghost_iter.index@,
                 g.inv_outer(y@, VERUS_ghost_iter.index@ as int, k as int), //# inv-between-expansions
                 g.conn_ok(y@, seeds) && seeds.len() == k, //# inv-clustered-cores-connected-to-seed
-//@before if y[i] == undefined {
+//@loopbody 1
+            // everything the visit of point i can do, decided from the state before the visit (y_o, k) and the graph
+            let ghost y_o = y@;
             proof {
                 assert((i, e) == VERUS_ghost_iter.seq()[VERUS_ghost_iter.index@ as int]);
                 assert(i == VERUS_ghost_iter.index@ && e@ == g.rows[i as int]);
-                if y@[i as int] != -3 { g.lemma_skip(y@, i as int, k as int); }
-            }
-//@after let mut neighbors = algo.find_radius
-                let ghost nb0 = neighbors@;
-                proof {
-                    lemma_answer(g, &algo, i as int, e@, nb0);
-                    if nb0.len() < g.ms {
-                        g.lemma_outlier(y@, i as int, k as int);
-                        g.lemma_conn_other(y@, seeds, i as int, -1i16);
+                g.lemma_outer_basic(y_o, i as int, k as int);
+                g.lemma_close_q(i as int, k as int);
+                if y_o[i as int] != -3 {
+                    g.lemma_skip(y_o, i as int, k as int);
+                } else {
+                    lemma_answer_q(g, &algo, i as int);
+                    if !g.core(i as int) {
+                        g.lemma_outlier(y_o, i as int, k as int);
+                        g.lemma_conn_other(y_o, seeds, i as int, -1i16);
                     } else {
-                        g.lemma_seed(y@, i as int, k as int, idxs(nb0));
-                        g.lemma_conn_seed(y@, seeds, i as int, k as int);
+                        g.lemma_seed_q(y_o, i as int, k as int);
+                        g.lemma_conn_seed(y_o, seeds, i as int, k as int);
                         seeds = seeds.push(i as int);
                     }
                 }
+            }
 //@loop 2
                         invariant
                             g.eps == parameters.eps, g.ms == parameters.min_samples as int, g.ms >= 1,
                             n == g.n(), y@.len() == n, i < n, 0 <= k <= i, n <= i16::MAX, algo_for(g, &algo),
                             queued == -2, outlier == -1, undefined == -3,
-                            neighbors@ == nb0, refs_ok(g, nb0),
-                            g.inv_exp(y@, idxs(nb0), i as int, k as int, i as int, idxs(nb0), j as int), //# inv-seed-neighbours-marked
+                            refs_ok(g, neighbors@),
+                            g.inv_exp(y@, idxs(neighbors@), i as int, k as int, i as int, idxs(neighbors@), j as int), //# inv-seed-neighbours-marked
                             g.conn_ok(y@, seeds) && seeds.len() == k + 1,
-//@before if y[neighbors[j].0] == undefined {
+//@loopbody 2
                         proof {
-                            assert(idxs(nb0)[j as int] == neighbors@[j as int].0);
-                            assert(on(idxs(nb0), idxs(nb0)[j as int]));
-                            g.lemma_step(y@, idxs(nb0), i as int, k as int, i as int, idxs(nb0), j as int, false);
-                            if y@[idxs(nb0)[j as int]] == -3 { g.lemma_conn_other(y@, seeds, idxs(nb0)[j as int], -2i16); }
+                            let nbl = idxs(neighbors@);
+                            assert(nbl[j as int] == neighbors@[j as int].0);
+                            assert(on(nbl, nbl[j as int]));
+                            g.lemma_step(y@, nbl, i as int, k as int, i as int, nbl, j as int, false);
+                            if y@[nbl[j as int]] == -3 { g.lemma_conn_other(y@, seeds, nbl[j as int], -2i16); }
                         }
-//@before while !neighbors.is_empty() {
-                    let ghost mut p: int = i as int;
-                    let ghost mut pl: Seq<int> = idxs(nb0);
 //@loop 3
                         invariant
                             g.eps == parameters.eps, g.ms == parameters.min_samples as int, g.ms >= 1,
                             n == g.n(), y@.len() == n, i < n, 0 <= k <= i, n <= i16::MAX, algo_for(g, &algo),
                             queued == -2, outlier == -1, undefined == -3,
                             refs_ok(g, neighbors@),
-                            g.inv_exp(y@, idxs(neighbors@), i as int, k as int, p, pl, pl.len() as int), //# inv-cluster-expansion
+                            // nothing pending: every neighbour of a core point of cluster k is clustered or waits on the stack
+                            g.inv_exp(y@, idxs(neighbors@), i as int, k as int, -1, Seq::<int>::empty(), 0), //# inv-cluster-expansion
                             g.conn_ok(y@, seeds) && seeds.len() == k + 1, //# inv-clustered-cores-connected-to-seed
                             // once the stack is empty, cluster k is complete
                             neighbors@.len() == 0 ==> g.inv_outer(y@, i as int + 1, k as int + 1), //# inv-empty-stack-means-cluster-complete
                         decreases unlabelled(y@, n as int), neighbors.len()
-//@before let neighbor = neighbors.pop().unwrap();
+//@loopbody 3
+                        // everything the pop can do, decided from the state before the pop (y_pre, stack st_pre) and the graph
                         let ghost y_pre = y@;
-                        let ghost st_pre = idxs(neighbors@);
                         let ghost nbs_pre = neighbors@;
+                        let ghost st_pre = idxs(nbs_pre);
+                        let ghost top = st_pre.last();
                         proof {
-                            lemma_unl_bound(y@, n as int);
-                            g.lemma_done_pending(y_pre, st_pre, i as int, k as int, p, pl);
-                            p = -1;
-                            pl = Seq::<int>::empty();
-                        }
-//@after let index = neighbor.0;
-                        let ghost st1 = idxs(neighbors@);
-                        proof {
-                            assert(neighbor == nbs_pre[nbs_pre.len() - 1]);
-                            assert(st1 =~= st_pre.drop_last());
-                            assert(index == st_pre.last());
-                            assert(0 <= nbs_pre[nbs_pre.len() - 1].0 < n);
+                            assert(nbs_pre.len() > 0);
+                            assert(top == nbs_pre[nbs_pre.len() - 1].0);
+                            assert(0 <= nbs_pre[nbs_pre.len() - 1].0 < n && (*nbs_pre[nbs_pre.len() - 1].2)@ == g.rows[top]);
+                            assert(idxs(nbs_pre.drop_last()) =~= st_pre.drop_last());
+                            lemma_unl_bound(y_pre, n as int);
                             g.lemma_exp_basic(y_pre, st_pre, i as int, k as int, -1, Seq::<int>::empty(), 0);   // labels are >= -3
-                            if y_pre[index as int] == -1 { g.lemma_exp_outlier_not_core(y_pre, st_pre, i as int, k as int, -1, Seq::<int>::empty(), 0, index as int); }
-                            if y_pre[index as int] >= 0 {
+                            g.lemma_close_q(i as int, k as int);
+                            lemma_answer_q(g, &algo, top);
+                            if y_pre[top] >= 0 {
                                 g.lemma_pop_labelled(y_pre, st_pre, i as int, k as int);
-                                if st1.len() == 0 { assert(st1 =~= Seq::<int>::empty()); g.lemma_finish(y_pre, i as int, k as int); }
-                            }
-                            if y_pre[index as int] == -1 {
-                                g.lemma_pop_join(y_pre, st_pre, i as int, k as int);
-                                g.lemma_conn_other(y_pre, seeds, index as int, k);
-                                lemma_unl_update(y_pre, index as int, k, n as int);
-                                lemma_unl_bound(y_pre.update(index as int, k), n as int);
-                                if st1.len() == 0 { assert(st1 =~= Seq::<int>::empty()); g.lemma_finish(y_pre.update(index as int, k), i as int, k as int); }
-                            }
-                        }
-//@before let secondary_neighbors =
-                            let ghost y_k = y@;
-                            proof {
-                                assert(y_k == y_pre.update(index as int, k));
-                                lemma_unl_update(y_pre, index as int, k, n as int);
-                                lemma_unl_bound(y_k, n as int);
-                            }
-//@after algo.find_radius(neighbor.2, parameters.eps)?;
-                            proof {
-                                assert((*neighbor.2)@ == g.rows[index as int]);
-                                lemma_answer(g, &algo, index as int, (*neighbor.2)@, secondary_neighbors@);
-                                if secondary_neighbors@.len() >= g.ms {
-                                    g.lemma_pop_core(y_pre, st_pre, i as int, k as int, idxs(secondary_neighbors@));
-                                    g.lemma_conn_pop_core(y_pre, st_pre, seeds, i as int, k as int);
-                                    p = index as int;
-                                    pl = idxs(secondary_neighbors@);
-                                } else {
+                            } else {
+                                lemma_unl_update(y_pre, top, k, n as int);
+                                lemma_unl_bound(y_pre.update(top, k), n as int);
+                                if y_pre[top] == -1 { g.lemma_exp_outlier_not_core(y_pre, st_pre, i as int, k as int, -1, Seq::<int>::empty(), 0, top); }
+                                if !g.core(top) {
                                     g.lemma_pop_join(y_pre, st_pre, i as int, k as int);
-                                    g.lemma_conn_other(y_pre, seeds, index as int, k);
-                                    if st1.len() == 0 { assert(st1 =~= Seq::<int>::empty()); g.lemma_finish(y_k, i as int, k as int); }
+                                    g.lemma_conn_other(y_pre, seeds, top, k);
+                                } else {
+                                    g.lemma_pop_core_q(y_pre, st_pre, i as int, k as int);
+                                    g.lemma_conn_pop_core(y_pre, st_pre, seeds, i as int, k as int);
                                 }
                             }
+                        }
+//@loopend 3
+                        proof {
+                            if y_pre[top] >= 0 { assert(y@ == y_pre); assert(neighbors@.len() < nbs_pre.len()); }
+                            else if y_pre[top] == -1 { assert(y@ == y_pre.update(top, k)); assert(unlabelled(y@, n as int) < unlabelled(y_pre, n as int)); }
+                            else { assert(unlabelled(y@, n as int) < unlabelled(y_pre, n as int)); }
+                        }
 //@loop 4
                                     invariant
                                         g.eps == parameters.eps, g.ms == parameters.min_samples as int, g.ms >= 1,
                                         n == g.n(), y@.len() == n, i < n, 0 <= k <= i, n <= i16::MAX, algo_for(g, &algo),
                                         queued == -2, outlier == -1, undefined == -3,
                                         refs_ok(g, neighbors@), refs_ok(g, secondary_neighbors@),
-                                        p == index, pl == idxs(secondary_neighbors@),
-                                        unlabelled(y@, n as int) == unlabelled(y_k, n as int),
-                                        g.inv_exp(y@, idxs(neighbors@), i as int, k as int, p, pl, j as int), //# inv-neighbours-of-new-core-point-marked
-                                        g.ms >= 1, secondary_neighbors@.len() >= g.ms,
+                                        0 <= index < n,
+                                        unlabelled(y@, n as int) < unlabelled(y_pre, n as int),
+                                        g.inv_exp(y@, idxs(neighbors@), i as int, k as int, index as int, idxs(secondary_neighbors@), j as int), //# inv-neighbours-of-new-core-point-marked
                                         g.conn_ok(y@, seeds) && seeds.len() == k + 1,
-                                        (j == secondary_neighbors@.len() && neighbors@.len() == 0) ==> g.inv_outer(y@, i as int + 1, k as int + 1),
-//@before let label = y[secondary_neighbors[j].0];
-                                    let ghost y_b = y@;
-                                    let ghost st_b = idxs(neighbors@);
-                                    let ghost jj = secondary_neighbors@[j as int].0 as int;
+//@loopbody 4
                                     proof {
+                                        let y_b = y@;
+                                        let st_b = idxs(neighbors@);
+                                        let pl = idxs(secondary_neighbors@);
+                                        let jj = secondary_neighbors@[j as int].0 as int;
                                         assert(pl[j as int] == jj);
-                                        // not pushed (already clustered, or queued: then it is on the stack)
-                                        if !(y_b[jj] == -3 || y_b[jj] == -1) {
-                                            g.lemma_step(y_b, st_b, i as int, k as int, p, pl, j as int, false);
-                                            if j + 1 == pl.len() && st_b.len() == 0 {
-                                                assert(st_b =~= Seq::<int>::empty());
-                                                assert(mark(y_b, jj) == y_b);
-                                                g.lemma_done_pending(y_b, st_b, i as int, k as int, p, pl);
-                                                g.lemma_finish(y_b, i as int, k as int);
-                                            }
-                                        }
+                                        lemma_idxs_push_q::<T>();
+                                        // undefined or outlier: pushed; otherwise already clustered, or queued (then it is on the stack)
+                                        g.lemma_step(y_b, st_b, i as int, k as int, index as int, pl, j as int, y_b[jj] == -3 || y_b[jj] == -1);
                                         if y_b[jj] == -3 { lemma_unl_update(y_b, jj, -2i16, n as int); g.lemma_conn_other(y_b, seeds, jj, -2i16); }
                                     }
-//@after neighbors.push(secondary_neighbors[j]);
-                                        proof {
-                                            assert(idxs(neighbors@) =~= st_b.push(jj));
-                                            g.lemma_step(y_b, st_b, i as int, k as int, p, pl, j as int, true);
-                                        }
-//@before Ok(DBSCAN {
-        proof {
-            g.lemma_outer_basic(y@, n as int, k as int);
-            g.lemma_final(y@, k as int);
-            g.lemma_conn_final(y@, seeds);
-            assert forall|c: int| 0 <= c < k implies #[trigger] g.has_first_core(y@, c) by {
-                assert(g.first_core_of(y@, seeds[c], c));
-            }
-        }
 //@end
 }
 } // verus!
